@@ -67,7 +67,7 @@ func gOp(o *jOp) string {
 		return fmt.Sprintf("ReplLaunch %s %s", gnat(o.K), gnat(o.J))
 	case "init":
 		return fmt.Sprintf("ReplInit %s %s", gnat(o.K), gnat(o.J))
-	case "delapi":
+	case "delapi", "delapi-node-first":
 		return fmt.Sprintf("ReplDelApi %s %s", gnat(o.K), gnat(o.J))
 	case "delstate":
 		return fmt.Sprintf("ReplDelState %s %s", gnat(o.K), gnat(o.J))
@@ -306,6 +306,17 @@ func classify(o *jOp, es []effect, before, after snapshot) []string {
 		out = append(out, b)
 	default:
 		out = append(out, "env:"+o.Op)
+		if o.Op == "delstate" {
+			for _, r := range before.Repls {
+				if r.K == o.K && r.J == o.J && !r.Exists && r.InSt {
+					if r.HasNode {
+						out = append(out, "env:replacement-claim-deletion-delivered:node-lingers")
+					} else {
+						out = append(out, "env:replacement-claim-deletion-delivered:no-node")
+					}
+				}
+			}
+		}
 	}
 	if o.Op == "recon" || o.Op == "cleanup" {
 		for id, nd := range before.Nodes {
